@@ -31,6 +31,9 @@ structure St (α : Type) where
 
 def K : Nat := 2
 
+/-- index of the sibling of node `n` at its level -/
+def sib (n : Nat) : Nat := if n % 2 = 0 then n + 1 else n - 1
+
 variable {α : Type} (o : Ops α)
 
 def thZero : TH α := ⟨0, 0, 0, 0, o.zero⟩
